@@ -34,10 +34,13 @@ REPO_SRC = os.path.join(REPO_DIR, "src")
 class Violation(Exception):
     """The property is broken on this case."""
 
-    def __init__(self, clause: str, detail: str = "") -> None:
+    def __init__(self, clause: str, detail: str = "", override: tuple | None = None) -> None:
         super().__init__(f"{clause}: {detail}")
         self.clause = clause
         self.detail = detail
+        # (part name, data): the failing case is not the generated one but this explicit case
+        # (used when a failure involves state accumulated over earlier cases of the run)
+        self.override = override
 
 
 class HarnessError(Exception):
@@ -220,7 +223,7 @@ class CaseRunner:
         self.clear_caches = getattr(module, "CLEAR_MATCH_CACHES", True)
         self.failure: dict | None = None  # smallest failing case so far
         self.failures_seen = 0
-        self.harness_error: str | None = None
+        self.no_shrink = False
 
     def run_case(self, part: Part, data: Any, count: bool = True) -> None:
         """Evaluate; raises Violation on failure (after recording it)."""
@@ -229,7 +232,12 @@ class CaseRunner:
         try:
             part.check(data, lab)
         except Violation as v:
-            self._record_failure(part, data, v.clause, v.detail)
+            if v.override is not None:
+                self.no_shrink = True
+                opart = next(p for p in self.module.PARTS if p.name == v.override[0])
+                self._record_failure(opart, v.override[1], v.clause, v.detail)
+            else:
+                self._record_failure(part, data, v.clause, v.detail)
             raise
         except HarnessError:
             raise
@@ -332,7 +340,7 @@ def hypothesis_search(runner: CaseRunner, part: Part, n_examples: int) -> None:
     @given(strat)
     def test(data: Any) -> None:
         if state["first_fail_at"] is not None:
-            if time.monotonic() - state["first_fail_at"] > SHRINK_BUDGET_S:
+            if runner.no_shrink or time.monotonic() - state["first_fail_at"] > SHRINK_BUDGET_S:
                 return  # shrink budget exhausted: stop the shrinker
             try:
                 runner.run_case(part, data, count=False)
@@ -386,6 +394,8 @@ def run_shard(module: Any, ctx: Ctx) -> dict:
     for part in module.PARTS:
         if only and part.name not in only.split(","):
             continue
+        if part.enumerate is None and part.strategy is None:
+            continue  # replay-only part
         if part.enumerate is not None:
             enumeration_search(runner, part)
         else:
